@@ -9,6 +9,9 @@ TRUSTED = [
     "(and by C14's malformed stream); Gen.convertyear / Gen.adjustAmpm are re-translated from source on every run",
     "the template printers of the oracle are harness/props/_parser_gen.py (Python); the Lean printer of the proved family "
     "(Spec/ParserTemplates.lean, ISO-like YYYY-MM-DD[T ]HH:MM:SS) is compared with it on every run (parser.render op)",
+    "parse_render_iso is a theorem for templates iso_T_s / iso_sp_s without offset (all valid datetimes, any classification "
+    "agreeing with ASCII on 0-9 - : T space -- checked against Python's predicates each run); the other 42 templates and "
+    "all offset spellings are parse_render_partial: oracle sweep + correspondence of the executable model only",
 ]
 ASSUMPTIONS = [
     "parserinfo._year is read back from the implementation (two-digit-year expectations do not depend on the wall clock)",
@@ -66,6 +69,14 @@ def correspondence(ctx):
                 if i != m:
                     ctx.mismatch("parser.parse", c.describe(), i, m)
             ctx.traces += len(calls)
+        # the hypothesis of parse_render_iso on the classification: Python's classes of the characters involved
+        want = {c: str(i) for i, c in enumerate("0123456789")}
+        want.update({"-": "x", ":": "x", "T": "a", " ": "s"})
+        for ch, k in want.items():
+            if L.cls_char(ch) != k:
+                ctx.mismatch("AsciiLike", ascii(ch), L.cls_char(ch), k)
+        ctx.hist["templates_with_theorem"] = "iso_T_s, iso_sp_s (C02.parse_render_iso: all valid datetimes, naive)"
+        ctx.hist["templates_correspondence_only"] = ", ".join(t['name'] for t in G.TEMPLATES if t['name'] not in ("iso_T_s", "iso_sp_s")) + "; and every offset spelling"
         # the Lean printer of the proved family against the Python printer
         L.set_tz("UTC")
         rs = ctx.subrng("render")
